@@ -21,7 +21,8 @@ class SimHooks(Hooks):
             return MEM
         if field in self.conn_fields:
             return 'CONNECTED'
-        return None
+        # any other array-like member is its own store, named after the member
+        return 'ARRAY:' + field
 
     def initial_field(self, name, w):
         return var(name, w)
